@@ -545,6 +545,11 @@ pub fn search_agents(prop: &str, seed: u64) -> Option<(AgentCase, Vec<Failure>)>
         cases.push(AgentCase::MomentumMarket { path: vec![(10000, 10002), (10800, 10802), (10000, 10002), (10900, 10902)], n: 3, seed, decay: 1.0, scale: 1.0 });
         cases.push(AgentCase::MomentumMarket { path: vec![(10000, 10002), (10008, 10010), (10000, 10002), (10010, 10012)], n: 4, seed, decay: 1.0, scale: 50.0 });
         cases.push(AgentCase::MomentumMarket { path: vec![(20000, 20002), (50000, 50002), (20000, 20002)], n: 2, seed, decay: 0.5, scale: 1.0 });
+        // very large (valid) prices: a flat market has M = 0 and nobody trades, a half-tick fall sells - the remembered price keeps full precision
+        cases.push(AgentCase::Momentum { path: vec![(20_000_000, 20_000_002), (20_000_000, 20_000_002), (20_000_000, 20_000_002)], n: 2, decay: 1.0, order_ratio: 1.0, seed, demand: 1.0e6, scale: 1.0 });
+        cases.push(AgentCase::Momentum { path: vec![(3_000_000_000, 3_000_000_002), (3_000_000_000, 3_000_000_002), (2_999_999_999, 3_000_000_002), (3_000_000_000, 3_000_000_002)], n: 2, decay: 1.0, order_ratio: 0.0, seed, demand: 1.0e6, scale: 1.0 });
+        cases.push(AgentCase::MomentumMarket { path: vec![(20_000_000, 20_000_002), (20_000_000, 20_000_002), (20_000_000, 20_000_001), (20_000_000, 20_000_002)], n: 2, seed, decay: 1.0, scale: 1.0 });
+        cases.push(AgentCase::MomentumMarket { path: vec![(3_000_000_000, 3_000_000_002), (3_000_000_000, 3_000_000_002), (3_000_000_000, 3_000_000_002)], n: 3, seed, decay: 0.5, scale: 1.0 });
         // barely saturated demand: the probability is |demand * tanh(scale * M)| / n with n the NUMBER of traders
         cases.push(AgentCase::Momentum { path: vec![(1000, 1002), (1020, 1022), (1000, 1002), (1030, 1032)], n: 3, decay: 1.0, order_ratio: 0.0, seed, demand: 3.6, scale: 1.0 });
     }
